@@ -66,6 +66,42 @@ pub fn apply_fsop(sb: &Path, op: &Value) -> i64 {
             ) as i64,
             "unlink" => libc::unlink(p(1).as_ptr()) as i64,
             "rmdir" => libc::rmdir(p(1).as_ptr()) as i64,
+            // mount operations (private mount namespace only); paths are absolute (hex)
+            "mount_tmpfs" => {
+                let t = CString::new(unhex(a[1].as_str().unwrap())).unwrap();
+                libc::mount(b"tmpfs\0".as_ptr() as *const libc::c_char, t.as_ptr(), b"tmpfs\0".as_ptr() as *const libc::c_char, 0, std::ptr::null()) as i64
+            }
+            "mount_bind" => {
+                let src = CString::new(unhex(a[1].as_str().unwrap())).unwrap();
+                let t = CString::new(unhex(a[2].as_str().unwrap())).unwrap();
+                libc::mount(src.as_ptr(), t.as_ptr(), std::ptr::null(), libc::MS_BIND, std::ptr::null()) as i64
+            }
+            "mount_bind_nofollow" => {
+                // open_tree(src, CLONE) + move_mount onto the target WITHOUT following a trailing (magic-)link:
+                // this is how a symlink itself gets over-mounted
+                let src = CString::new(unhex(a[1].as_str().unwrap())).unwrap();
+                let t = CString::new(unhex(a[2].as_str().unwrap())).unwrap();
+                let tfd = libc::syscall(libc::SYS_open_tree, libc::AT_FDCWD, src.as_ptr(), 1 /* OPEN_TREE_CLONE */ | libc::O_CLOEXEC);
+                if tfd < 0 {
+                    -1
+                } else {
+                    let r = libc::syscall(libc::SYS_move_mount, tfd, b"\0".as_ptr(), libc::AT_FDCWD, t.as_ptr(), 4 /* MOVE_MOUNT_F_EMPTY_PATH */);
+                    let e = errno();
+                    libc::close(tfd as i32);
+                    if r < 0 {
+                        *libc::__errno_location() = e;
+                    }
+                    r as i64
+                }
+            }
+            "umount_nofollow" => {
+                let t = CString::new(unhex(a[1].as_str().unwrap())).unwrap();
+                libc::umount2(t.as_ptr(), libc::MNT_DETACH | libc::UMOUNT_NOFOLLOW) as i64
+            }
+            "umount" => {
+                let t = CString::new(unhex(a[1].as_str().unwrap())).unwrap();
+                libc::umount2(t.as_ptr(), libc::MNT_DETACH) as i64
+            }
             "rmtree" => {
                 let _ = std::fs::remove_dir_all(join(sb, a[1].as_str().unwrap()));
                 0
@@ -183,4 +219,29 @@ pub fn fd_table(exclude: &[i32]) -> Vec<Value> {
         libc::closedir(d);
     }
     out
+}
+
+/// number of entries of a directory descriptor (None if it is not a readable directory)
+pub fn dir_names(fd: i32) -> Option<usize> {
+    unsafe {
+        let d2 = libc::openat(fd, b".\0".as_ptr() as *const libc::c_char, libc::O_RDONLY | libc::O_DIRECTORY | libc::O_CLOEXEC);
+        if d2 < 0 {
+            return None;
+        }
+        let d = libc::fdopendir(d2);
+        if d.is_null() {
+            libc::close(d2);
+            return None;
+        }
+        let mut n = 0usize;
+        loop {
+            let e = libc::readdir(d);
+            if e.is_null() {
+                break;
+            }
+            n += 1;
+        }
+        libc::closedir(d);
+        Some(n)
+    }
 }
